@@ -54,6 +54,16 @@ class Stop(Exception):
         self.what = what
 
 
+class LoopExit(Exception):
+    def __init__(self, kind):
+        self.kind = kind
+
+
+SEG_READS = ("get_seg_length_at", "seg_length_at")
+SEG_GROW = ("insert", "push_back", "push_front", "push")
+SEG_SHRINK = ("remove", "pop_back", "pop_front", "pop")
+
+
 def untry(e):
     """`x?` -> x"""
     e = hirq.strip(e)
@@ -81,6 +91,11 @@ class Tree:
         self.alpha = alpha          # value of `alph.as_binary()` when evaluating a bound-alpha branch
         self.result = None          # e.g. ('len', n) for the alias length table
         self.captured = None
+        # length domain: `state` is the *true* run length (the segments of the syllable); the locals that were read from it
+        # (`let mut seg_len = self.get_seg_length_at(pos)`) are ordinary integer locals that start out equal to it
+        if dom == "length":
+            for nm in self.state_locals:
+                self.env[nm] = state
 
     # ---- expressions
     def value(self, e):
@@ -94,7 +109,7 @@ class Tree:
                 return p[len(SK):]
             if "local" in e:
                 nm = e["local"]
-                if nm in self.state_locals:
+                if nm in self.state_locals and not (self.dom == "length" and isinstance(self.env.get(nm), int)):
                     return self.state
                 v = self.env.get(nm)
                 if v is None:
@@ -125,9 +140,13 @@ class Tree:
             if op == "Or":
                 return bool(a) or bool(b)
             raise AnchorMissing("%s: operator %s (line %s)" % (self.fn, op, e.get("ln")))
+        if k in ("mcall", "call") and self._local_callee(e) is not None:
+            return self._inline_call(e, True)
         if k == "mcall":
             nm = e["name"]
             r = hirq.strip(e["recv"])
+            if nm in SEG_READS and self.dom == "length":
+                return self.state
             if nm == "as_bool":
                 v = self.value(r)
                 if isinstance(v, tuple) and v[0] == "mod":
@@ -308,28 +327,56 @@ class Tree:
             a = hirq.strip(e.get("a") or {})
             self._returned(a)
         if k == "loop":
-            # `while <state> < N { insert; state += 1 }` / `while <state> > N { remove; state -= 1 }`: a clamp
+            # `while <cond> { .. }`: run it (finite state: a run length is 1..3, so eight rounds mean it does not end)
             inner = hirq.strip(e["body"])
             items = [inner] if inner.get("e") == "if" else list(inner.get("stmts", [])) + ([inner["tail"]] if inner.get("tail") is not None else [])
             if e.get("src") == "While" and len(items) == 1 and hirq.strip(items[0]).get("e") == "if":
                 iff = hirq.strip(items[0])
                 c = hirq.strip(iff["cond"])
-                if c.get("e") == "binary" and c["op"] in ("Lt", "Gt", "Le", "Ge") and self._state_local(c["a"]) and isinstance(self._try_value(c["b"]), int):
-                    steps = [x for x in hirq.walk(iff["then"]) if x["e"] == "assignop" and self._state_local(x["lhs"])]
-                    if len(steps) != 1 or hirq.strip(steps[0]["rhs"]).get("lit") != 1:
-                        raise AnchorMissing("%s: loop at line %s does not step the length by one" % (self.fn, e.get("ln")))
-                    up = steps[0]["op"] == "AddAssign"
-                    guard = 0
-                    while self.value(c) and guard < 8:
-                        self.state += 1 if up else -1
-                        guard += 1
-                    if guard >= 8:
+                if c.get("e") == "letcond":
+                    raise AnchorMissing("%s: `while let` loop at line %s" % (self.fn, e.get("ln")))
+                guard = 0
+                before = (self.state, dict((k_, v_) for k_, v_ in self.env.items() if isinstance(v_, int) and not isinstance(v_, bool)))
+                while self.value(c):
+                    try:
+                        self.run(iff["then"])
+                    except LoopExit as le:
+                        if le.kind == "break":
+                            break
+                    guard += 1
+                    now = (self.state, dict((k_, v_) for k_, v_ in self.env.items() if isinstance(v_, int) and not isinstance(v_, bool)))
+                    if guard >= 8 or now == before:
                         raise Stop(("diverges", e.get("ln")))
-                    return None
+                    before = now
+                return None
             raise AnchorMissing("%s: unrecognised loop at line %s" % (self.fn, e.get("ln")))
+        if k in ("break", "continue"):
+            raise LoopExit(k)
+        if k == "assignop":
+            l = hirq.strip(e["lhs"])
+            while l.get("e") == "unary" and l.get("op") == "Deref":
+                l = hirq.strip(l["a"])
+            if l.get("e") == "path" and "local" in l and isinstance(self.env.get(l["local"]), int) and not isinstance(self.env.get(l["local"]), bool):
+                rhs = self.value(e["rhs"])
+                if not isinstance(rhs, int):
+                    raise AnchorMissing("%s: `%s %s= <non-integer>` at line %s" % (self.fn, l["local"], e.get("op"), e.get("ln")))
+                cur = self.env[l["local"]]
+                self.env[l["local"]] = {"AddAssign": cur + rhs, "SubAssign": cur - rhs, "MulAssign": cur * rhs}.get(e.get("op"), None)
+                if self.env[l["local"]] is None:
+                    raise AnchorMissing("%s: operator %s at line %s" % (self.fn, e.get("op"), e.get("ln")))
+            elif l.get("e") == "path" and l.get("local") in self.state_locals:
+                raise AnchorMissing("%s: length local `%s` stepped before it was read (line %s)" % (self.fn, l.get("local"), e.get("ln")))
+            else:
+                # an untracked counter: its right-hand side may still be a helper that edits the state
+                r0 = untry(e["rhs"])
+                if isinstance(r0, dict) and r0.get("e") in ("mcall", "call") and self._local_callee(r0) is not None:
+                    self._inline_call(r0, True)
+            return None
         if k == "assign":
             l = hirq.strip(e["lhs"])
-            if (l.get("e") == "field" and l["name"] in self.state_fields) or (l.get("e") == "path" and l.get("local") in self.state_locals):
+            if self.dom == "length" and l.get("e") == "path" and "local" in l and isinstance(self.env.get(l["local"]), int) and not isinstance(self.env.get(l["local"]), bool):
+                self.env[l["local"]] = self.value(e["rhs"])
+            elif (l.get("e") == "field" and l["name"] in self.state_fields) or (l.get("e") == "path" and l.get("local") in self.state_locals):
                 self.state = self.value(e["rhs"])
             return None
         if k == "call":
@@ -341,6 +388,9 @@ class Tree:
             return None
         if k in ("mcall", "call") and self._local_callee(e) is not None:
             return self._inline_call(e, want_value)
+        if k == "mcall" and self.dom == "length" and e["name"] in SEG_GROW + SEG_SHRINK and hirq.strip(e["recv"]).get("e") == "field" and hirq.strip(e["recv"]).get("name") == "segments":
+            self.state += 1 if e["name"] in SEG_GROW else -1
+            return None
         if k == "mcall":
             if e["name"] == "insert" and self.alpha is None:
                 # `alphas.borrow_mut().insert(ch, Alpha::Supra(<cond>))`: the captured value
@@ -386,7 +436,22 @@ class Tree:
         hands_state = any(self._state_local(a) for a in args) or (self.state_fields and any(
             hirq.strip(a).get("e") == "path" and hirq.strip(a).get("local") == "self" for a in args[:1]) and any(
             n["e"] == "assign" and hirq.strip(n["lhs"]).get("e") == "field" and hirq.strip(n["lhs"])["name"] in self.state_fields for n in hirq.walk(cb.hir["body"])))
+        if not hands_state and self.dom == "length" and args and hirq.strip(args[0]).get("e") == "path" and hirq.strip(args[0]).get("local") == "self":
+            hands_state = self._edits_segments(cb, set())
         return cb if hands_state else None
+
+    def _edits_segments(self, cb, seen):
+        if cb.path in seen:
+            return False
+        seen.add(cb.path)
+        for n in hirq.walk(cb.hir["body"]):
+            if n["e"] == "mcall" and n["name"] in SEG_GROW + SEG_SHRINK and hirq.strip(n["recv"]).get("e") == "field" and hirq.strip(n["recv"]).get("name") == "segments":
+                return True
+            if n["e"] == "mcall" and (n.get("def") or "").startswith("asca::"):
+                c2 = self.unit.body(n["def"])
+                if c2 is not None and c2.hir and c2.kind != "closure" and self._edits_segments(c2, seen):
+                    return True
+        return False
 
     def _inline_call(self, e, want_value):
         cb = self._local_callee(e)
@@ -396,11 +461,18 @@ class Tree:
         params = cb.hir.get("params") or []
         saved_env, saved_sl = dict(self.env), set(self.state_locals)
         new_sl = set()
+        write_back = []
         for p_, a in zip(params, args):
             if p_.get("p") != "bind":
                 continue
             if self._state_local(a):
                 new_sl.add(p_["name"])
+                a0 = hirq.strip(a)
+                while a0.get("e") in ("unary", "addr"):
+                    a0 = hirq.strip(a0["a"])
+                if self.dom == "length" and isinstance(self.env.get(a0.get("local")), int):
+                    self.env[p_["name"]] = self.env[a0["local"]]
+                    write_back.append((p_["name"], a0["local"]))
                 continue
             v = self._try_value(a)
             if v is not None:
@@ -415,7 +487,11 @@ class Tree:
                 raise
         finally:
             self.depth -= 1
+            outs = [(caller, self.env.get(param)) for param, caller in write_back]
             self.env, self.state_locals = saved_env, saved_sl
+            for caller, v in outs:
+                if isinstance(v, int):
+                    self.env[caller] = v
         return ret
 
     def _is_alpha_lookup(self, sc):
@@ -623,6 +699,8 @@ def _accepts_alpha(b, t, k, inv):
     return True
 
 
+RETURNED = {}
+
 SETTERS = [
     ("asca::syll::Syllable::apply_syll_mods", "stress", (), ("stress",)),
     ("asca::word::Word::alias_apply_stress", "stress", (), ("stress",)),
@@ -648,6 +726,7 @@ def sup2(ctx):
         D = STRESS if dom == "stress" else LENGTH
         short = path.rsplit("::", 1)[-1]
         tab = {}
+        returned = {}
         for signs in itertools.product((None, True, False), repeat=2):
             contradictory = signs == (False, True)
             for s in D:
@@ -660,7 +739,29 @@ def sup2(ctx):
                         ms = [m for m in hirq.matches(b) if "; 2]" in (m.get("sty") or "") and hirq.strip(m["scrut"]).get("name") == "length"]
                         if len(ms) != 1:
                             raise AnchorMissing("%s: match on mods.length not found" % path)
-                        t.run(ms[0])
+                        # the statements of the function around that match: the lets before it (run length read, counters)
+                        # and counter updates after it; everything else (stress / tone part) belongs to other rules
+                        top = root if root.get("e") == "block" else hirq.strip(root)
+                        seen_match = False
+                        for st in list(top.get("stmts", [])) + ([top["tail"]] if top.get("tail") is not None else []):
+                            st0 = st.get("a") if isinstance(st, dict) and st.get("e") == "semi" else st
+                            st0 = hirq.strip(st0) if isinstance(st0, dict) else st0
+                            if st0 is ms[0] or any(x is ms[0] for x in hirq.walk(st0)):
+                                t.run(st0)
+                                seen_match = True
+                            elif st0.get("e") == "let" and not seen_match:
+                                t.run(st0)
+                            elif st0.get("e") == "assignop":
+                                t.run(st0)
+                            elif seen_match and st0 is top.get("tail") or (seen_match and hirq.strip(st0).get("e") == "call" and (hirq.strip(hirq.strip(st0)["f"]).get("path") or "").endswith("Result::Ok")):
+                                rv = hirq.strip(hirq.strip(st0)["args"][0]) if hirq.strip(st0).get("e") == "call" else None
+                                if rv is not None:
+                                    try:
+                                        returned[(signs, s)] = t.value(rv)
+                                    except AnchorMissing:
+                                        returned[(signs, s)] = None
+                        if not seen_match:
+                            raise AnchorMissing("%s: the match on mods.length is not a top-level statement" % path)
                     else:
                         ms = [m for m in hirq.matches(b) if "; 2]" in (m.get("sty") or "") and hirq.strip(m["scrut"]).get("name") == "stress"]
                         if len(ms) != 1:
@@ -700,6 +801,8 @@ def sup2(ctx):
                              "setting %s on a %s %s leaves %s, which %s does not match (manual: a set modifier leaves a state that the same modifier matches)"
                              % (name, dom, s, t.state, name))
         tables[path] = tab
+        if dom == "length":
+            RETURNED[path] = (returned, {k_: v_ for k_, v_ in tab.items()})
     # alias sibling of the length setter: the length a deromaniser gives a fresh (short) segment
     b = ctx.fn(lib, "asca::word::Word::alias_apply_length")
     rule_tab = tables["asca::syll::Syllable::apply_supras"]
@@ -924,3 +1027,30 @@ def par_if_then(b, node):
             return x["then"]
         x = par.get(id(x))
     return {}
+
+
+def sup6(ctx):
+    """Syllable::apply_supras returns the number of run copies it inserted (+) or removed (-): every caller in SubRule moves
+    its scan cursor / its per-syllable length bookkeeping by that number. If the returned number differs from what was
+    really done to `segments`, the cursor lands inside the lengthened run (the rule re-matches its own output: the run
+    grows forever) or skips a segment."""
+    r = RuleResult("SUP-6", "Syllable::apply_supras returns exactly the change it made to the run: returned length change == run length after - run length before, for every modifier combination and every run length", floor=24)
+    path = "asca::syll::Syllable::apply_supras"
+    b = ctx.fn(ctx.lib, path)
+    sup2(ctx)                       # fills RETURNED (same evaluation as the set table)
+    if path not in RETURNED:
+        raise AnchorMissing("SUP-6: the length table of apply_supras was not evaluated")
+    returned, tab = RETURNED[path]
+    for (signs, s), (outcome, after) in sorted(tab.items(), key=str):
+        if outcome not in ("ok", "return"):
+            continue
+        name = "[%s]" % ", ".join("%s%s" % (SIGN[signs[k]], NAMES[("length", k)]) for k in (0, 1) if signs[k] is not None)
+        got = returned.get((signs, s), "missing")
+        want = after - s
+        ok = got == want
+        r.inst("apply_supras: %s on a run of %d: run becomes %d, returned change %s" % (name or "[]", s, after, got), fn_loc(b), "ok" if ok else "report")
+        if not ok:
+            r.report("SUP-6|apply_supras|%s|%d" % (name or "[]", s), fn_loc(b), path,
+                     "setting %s on a run of %d changes the run to %d copies but apply_supras returns %s instead of %+d: the callers advance their cursor by the returned number, so the scan resumes inside the new run (the rule matches its own output again and the run grows without end) or skips a segment"
+                     % (name, s, after, got, want))
+    return r
